@@ -95,8 +95,23 @@ func c05(r *ev.Run) {
 	r.Set("registered_suites", len(names))
 	// (2) hand-built configurations
 	shapes := usableShapes([]int{1, 60})
-	type job struct {
-		sh shape
+	// the same shapes with LEFT-OVER metadata on the fields they do not select (a challenge
+	// format without Q, a password hash without P, a time step without T): still usable
+	// suites, and the unselected fields must stay out of the message
+	for _, sh := range usableShapes([]int{60}) {
+		x := sh
+		if !x.Q {
+			x.QF = 3
+		}
+		if !x.P {
+			x.PH = 2
+		}
+		if !x.T {
+			x.TS = 60
+		}
+		if x != sh {
+			shapes = append(shapes, x)
+		}
 	}
 	var jobs []shape
 	for _, sh := range shapes {
